@@ -13,7 +13,8 @@ import vlib
 from checks import readers_common as rc
 
 THEOREMS = ["C07_byte_reader", "C07_sample_reader", "C07_channel_reader", "C07_bytes_vs_samples", "C07_ser_twos_complement", "C07_channels_deinterleaved",
-            "C07_nonvacuous", "C07_orig_redelivers_last_frame"]
+            "C07_nonvacuous", "C07_orig_redelivers_last_frame", "C07_channel_error_hides_frame",
+            "C07_orig_hands_out_failed_frame"]
 
 
 def run(chk):
@@ -33,6 +34,10 @@ def run(chk):
             continue
         stats[profile] = {k: v for k, v in run_["stat"].items() if k != "t"}
         chk.notes.extend(run_["notes"][:20])
+        stale = int(run_["stat"].get("damaged.stale_frame_after_error", 0))
+        if stale:
+            # outside C07's statement (the stream is damaged): recorded, not an alarm
+            chk.notes.append("%s build: on %d damaged-stream histories the channel reader handed out the frame whose CRC-16 failed on the call after the error (C05's concern; repaired by the channel-reader error-path fix)" % (profile, stale))
         total_cases += len(run_["cases"])
         for c in run_["cases"]:
             # non-trivial: ran to the end of the stream (the last observations are end-of-stream signals)
